@@ -25,9 +25,26 @@ Definition result_eqb (a b : result) : bool :=
 
 (* observed: the ordered calls, the result class, and what the harness sees afterwards: is the
    pipeline running, and is the stored config the old one (0), the new one (1) or neither (2) *)
+(* end-to-end log of a pipeline run by the REAL lifecycle service while a plan is applied
+   (harness/lib/applyx): what the fake plugins, the store and the caller saw, in real-time order *)
+Inductive xev :=
+| XRead (k : nat)                 (* the source plugin handed record k to the engine *)
+| XUnread (k : nat)               (* ... but the hand-off failed: k was not read *)
+| XWrite (k : nat)                (* the destination plugin received (and confirms) record k *)
+| XAck (k : nat)                  (* the source plugin received the ack of record k *)
+| XCommit (p : nat)               (* a store commit; p = stored source position afterwards *)
+| XImport (p : nat) (ok : bool)   (* a transactionalImport of the apply ended; p as above *)
+| XOpenSrc (p : nat)              (* the source plugin was opened at position p *)
+| XTdSrc                          (* the source plugin was torn down *)
+| XPOpen (inst : nat)             (* a processor instance was opened *)
+| XApplyCall
+| XApplyRet (r : result)
+| XEnd (p : nat).                 (* after the final StopAndWait; p = stored source position *)
+
 Inductive acase :=
 | ADec (fx : bool) (i : ainp) (events : list ev) (r : result) (running_after : bool) (cfg_after : nat)
-| ALock (same_id : bool) (log : list nat) (overlap : bool).
+| ALock (same_id : bool) (log : list nat) (overlap : bool)
+| AE2E (live auth hash_ok : bool) (total : nat) (log : list xev).
 
 Definition cfg_code (c : cfgv) : nat := match c with COld => 0 | CNew => 1 end.
 
@@ -69,6 +86,93 @@ Definition mon_dec (i : ainp) (events : list ev) (r : result) (running_after : b
       then consistent_after_failure (length (a_swaps i)) s0 s && (cfg_after =? cfg_code (as_cfg s)) && Bool.eqb running_after (as_running s)
       else true).
 
+(* ---------------------------------------------------------------- the end-to-end monitor *)
+Record xst := mkX {
+  x_running : bool;       (* a source plugin is open *)
+  x_next : nat;           (* the record the source has to hand out next *)
+  x_maxread : nat;        (* highest record handed out so far *)
+  x_acked : nat;          (* highest record whose ack reached the source plugin *)
+  x_durable : nat;        (* stored source position *)
+  x_written : list nat;
+  x_inapply : bool;
+  x_touched : bool;       (* a teardown, an open or an import happened inside the apply *)
+  x_ok : bool
+}.
+Definition x_init : xst := mkX false 1 0 0 0 [] false false true.
+
+Definition x_fail (s : xst) : xst :=
+  mkX (x_running s) (x_next s) (x_maxread s) (x_acked s) (x_durable s) (x_written s) (x_inapply s) (x_touched s) false.
+Definition x_check (b : bool) (s : xst) : xst := if b then s else x_fail s.
+
+Definition x_step (live : bool) (s : xst) (e : xev) : xst :=
+  match e with
+  | XOpenSrc p =>
+      (* the (re)started source resumes from the durable position *)
+      x_check (p =? x_durable s)
+        (mkX true (S p) (x_maxread s) (x_acked s) (x_durable s) (x_written s) (x_inapply s) (x_inapply s || x_touched s) (x_ok s))
+  | XRead k =>
+      (* no record is skipped: the next record read is the successor of the last one (of the durable
+         position, after a restart) *)
+      x_check (x_running s && (k =? x_next s))
+        (mkX (x_running s) (S k) (Nat.max k (x_maxread s)) (x_acked s) (x_durable s) (x_written s) (x_inapply s) (x_touched s) (x_ok s))
+  | XUnread k =>
+      mkX (x_running s) (Nat.min k (x_next s)) (Nat.min (k - 1) (x_maxread s)) (x_acked s) (x_durable s) (x_written s)
+          (x_inapply s) (x_touched s) (x_ok s)
+  | XWrite k =>
+      x_check (k <=? x_maxread s)
+        (mkX (x_running s) (x_next s) (x_maxread s) (x_acked s) (x_durable s) (k :: x_written s) (x_inapply s) (x_touched s) (x_ok s))
+  | XAck k =>
+      x_check (existsb (Nat.eqb k) (x_written s))
+        (mkX (x_running s) (x_next s) (x_maxread s) (Nat.max k (x_acked s)) (x_durable s) (x_written s) (x_inapply s) (x_touched s) (x_ok s))
+  | XCommit p =>
+      (* only the position of a delivered record is stored, and it never goes back *)
+      x_check (((p =? 0) || existsb (Nat.eqb p) (x_written s)) && (x_durable s <=? p))
+        (mkX (x_running s) (x_next s) (x_maxread s) (x_acked s) p (x_written s) (x_inapply s) (x_touched s) (x_ok s))
+  | XImport p _ =>
+      (* the import happens inside the apply, keeps the stored position, and - unless the whole diff
+         is applied in place - only after the drain completed: source torn down, every record read
+         acked, its position stored *)
+      x_check (x_inapply s && (p =? x_durable s)
+               && (live || (negb (x_running s) && (x_acked s =? x_maxread s) && (x_durable s =? x_maxread s))))
+        (mkX (x_running s) (x_next s) (x_maxread s) (x_acked s) (x_durable s) (x_written s) (x_inapply s) true (x_ok s))
+  | XTdSrc =>
+      mkX false (x_next s) (x_maxread s) (x_acked s) (x_durable s) (x_written s) (x_inapply s) (x_inapply s || x_touched s) (x_ok s)
+  | XPOpen _ => s
+  | XApplyCall =>
+      mkX (x_running s) (x_next s) (x_maxread s) (x_acked s) (x_durable s) (x_written s) true false (x_ok s)
+  | XApplyRet r =>
+      (* a refused or failed apply touched nothing: the records keep flowing *)
+      x_check (if is_error r then negb (x_touched s) else true)
+        (mkX (x_running s) (x_next s) (x_maxread s) (x_acked s) (x_durable s) (x_written s) false false (x_ok s))
+  | XEnd p =>
+      s
+  end.
+
+Fixpoint all_written (n : nat) (l : list nat) : bool :=
+  match n with 0 => true | S m => existsb (Nat.eqb n) l && all_written m l end.
+
+Definition mon_e2e (live : bool) (total : nat) (log : list xev) : bool :=
+  let s := fold_left (x_step live) log x_init in
+  x_ok s
+  (* nothing lost: every released record was read, delivered, acked, and its position is stored *)
+  && (x_maxread s =? total) && all_written total (x_written s) && (x_acked s =? total) && (x_durable s =? total)
+  && match last log XApplyCall with XEnd p => p =? total | _ => false end.
+
+(* the calls the apply made, read off the log between ApplyCall and ApplyRet (Start returns before
+   the plugins are opened, so the restart itself shows later: XOpenSrc is checked by the monitor) *)
+Fixpoint window (live inw tdseen : bool) (log : list xev) : list ev * option result :=
+  match log with
+  | [] => ([], None)
+  | XApplyCall :: r => window live true false r
+  | XApplyRet res :: _ => ([], Some res)
+  | XTdSrc :: r => if inw then let '(e, x) := window live inw true r in (EStop true :: e, x) else window live inw tdseen r
+  | XImport _ ok :: r => if inw then let '(e, x) := window live inw tdseen r in (EImport CNew ok :: e, x) else window live inw tdseen r
+  | XPOpen _ :: r => if live && inw && negb tdseen then let '(e, x) := window live inw tdseen r in (EReconf 0 RcOk :: e, x)
+                     else window live inw tdseen r
+  | _ :: r => window live inw tdseen r
+  end.
+Definition no_start (l : list ev) : list ev := filter (fun e => match e with EStart _ => false | _ => true end) l.
+
 Definition chk (c : acase) : nat :=
   match c with
   | ADec fx i events r running_after cfg_after =>
@@ -82,6 +186,12 @@ Definition chk (c : acase) : nat :=
          else let '(fe, fr) := apply true i in
               let fs := run_events (init i) fe in
               if mon_dec i fe fr (as_running fs) (cfg_code (as_cfg fs)) then 4 else 0)
+  | AE2E live auth hash_ok total log =>
+      let i := mkInp hash_ok false true true auth live true [RcOk] true [true] true true true in
+      let '(me, mr) := apply false i in
+      let '(oe, ores) := window live false false log in
+      code (list_eqb ev_eqb (no_start me) oe && match ores with Some r => result_eqb mr r | None => false end)
+           (mon_e2e live total log)
   | ALock same_id log overlap =>
       (* applies to one id never interleave; applies to different ids are not serialised *)
       code (Bool.eqb overlap (negb same_id)) (if same_id then serial log else true)
